@@ -333,8 +333,8 @@ func vfFullServer() map[string]string {
 	desc := `{"created":"` + vfTS + `","updated":"` + vfTS + `","touched":"` + vfTS + `","state":"ok","online":true,"chan":true,"defacs":{"auth":"JRWP","anon":"N"},"acs":` + acs + `,"seq":9,"read":4,"recv":6,"clear":2,"public":{"fn":"P"},"trusted":{"v":true},"private":{"c":"x"},"seen":{"when":"` + vfTS + `","ua":"agent"}}`
 	sub := `{"updated":"` + vfTS + `","deleted":"` + vfTS + `","online":true,"acs":` + acs + `,"read":3,"recv":5,"public":{"fn":"S"},"trusted":{"v":1},"private":{"p":2},"user":"usrAAAAAAAAAAA","topic":"grpBBBBBBBBBBB","touched":"` + vfTS + `","seq":8,"clear":1,"seen":{"when":"` + vfTS + `","ua":"agent"}}`
 	return map[string]string{
-		"ctrl-any":    `{"ctrl":{"id":"r1","topic":"grpBBBBBBBBBBB","code":200,"text":"ok","params":{"a":1,"b":"two","c":{"d":[1]}},"ts":"` + vfTS + `"}}`,
-		"data":        `{"data":{"topic":"grpBBBBBBBBBBB","from":"usrAAAAAAAAAAA","ts":"` + vfTS + `","deleted":"` + vfTS + `","seq":7,"head":{"mime":"text/plain","n":3},"content":{"txt":"x"}}}`,
+		"ctrl-any":    `{"ctrl":{"id":"r1","topic":"grpBBBBBBBBBBB","code":200,"text":"ok","params":{"a":1,"b":"two","c":{"d":[1]},"odd":"bell\u0007 del\u007f vt\u000b soh\u0001 astral\ud83d\ude00"},"ts":"` + vfTS + `"}}`,
+		"data":        `{"data":{"topic":"grpBBBBBBBBBBB","from":"usrAAAAAAAAAAA","ts":"` + vfTS + `","deleted":"` + vfTS + `","seq":7,"head":{"mime":"text/plain","n":3,"odd":"bell\u0007 del\u007f vt\u000b soh\u0001"},"content":{"txt":"x"}}}`,
 		"pres":        `{"pres":{"topic":"me","src":"grpBBBBBBBBBBB","what":"acs","ua":"agent","seq":5,"clear":2,"delseq":[{"low":1,"hi":4},{"low":9}],"tgt":"usrAAAAAAAAAAA","act":"usrCCCCCCCCCCC","dacs":{"want":"+W","given":"-R"}}}`,
 		"info":        `{"info":{"topic":"grpBBBBBBBBBBB","src":"usrDDDDDDDDDDD","from":"usrAAAAAAAAAAA","what":"call","seq":6,"event":"offer","payload":{"sdp":"y"}}}`,
 		"meta":        `{"meta":{"id":"r2","topic":"grpBBBBBBBBBBB","ts":"` + vfTS + `","desc":` + desc + `,"sub":[` + sub + `],"del":{"clear":3,"delseq":[{"low":2,"hi":5}]},"tags":["t1","t2"],"cred":[{"meth":"email","val":"a@b.c","done":true}]}}`,
